@@ -16,6 +16,7 @@ import (
 	sync "go.nanomsg.org/mangos/v3/verifsim/ssync"
 
 	"go.nanomsg.org/mangos/v3/verifsim/simrt"
+	"go.nanomsg.org/mangos/v3/verifsim/snet"
 )
 
 // curNet is the network of the current run (one run at a time per process).
@@ -25,6 +26,9 @@ func (w *W) UseNet(cfg NetCfg) *Net {
 	n := NewNet(w)
 	n.Cfg = cfg
 	curNet = n
+	if !w.Real {
+		snet.SetBackend(netBackend{n})
+	}
 	return n
 }
 
